@@ -375,6 +375,146 @@ def run_outbound_world(case, R):
     vtime.run(main)
 
 
+def run_outbound_backpressure(case, R):
+    """The accessory stops reading for a while: requests pile up in the transport's write buffer (over asyncio's 64 KiB high-water mark in the
+    non-trivial cases, so the protocol is told to pause), more requests are issued, the accessory reads again, more requests follow.  Whatever
+    reaches the reference accessory must authenticate, in order, and be requests that were issued, in the order they were issued."""
+    pre, mid, post = case["pre"], case["mid"], case["post"]
+    over = sum(pre) > 64 * 1024
+    R.nt(over)
+    R.cls("out:backpressure" + (":paused" if over else ""))
+
+    async def main(loop):
+        w = IpWorld(loop, k=case.get("k", 0))
+
+        def hook(conn, req):
+            if req.target.startswith("/x"):
+                conn.send_http(204, "No Content")
+                return True
+            return False
+        w.acc.on_request = hook
+        try:
+            p = w.pairing
+            await p.list_accessories_and_characteristics()
+            conn = w.acc.conns[0]
+            sent, tasks = [], []
+
+            def issue(n):
+                body = bytes((i * 31 + n + len(sent)) & 0xFF for i in range(n)) or b"x"
+                sent.append(body)
+                tasks.append(asyncio.ensure_future(p.connection.post("/x", body)))
+            conn.t.stalled = True
+            for n in pre:
+                issue(n)
+            for _ in range(5):
+                await asyncio.sleep(0)
+            for n in mid:
+                issue(n)
+            for _ in range(5):
+                await asyncio.sleep(0)
+            conn.t.drain()
+            for _ in range(5):
+                await asyncio.sleep(0)
+            for n in post:
+                issue(n)
+            res = await asyncio.gather(*tasks, return_exceptions=True)
+            if conn.frame_errors:
+                R.fail("C05.outbound-frames", f"after a paused write buffer the reference accessory rejected a frame: {conn.frame_errors[0]} "
+                       f"(pre {pre} mid {mid} post {post}; outcomes {[type(r).__name__ for r in res]})", backpressure=1)
+                return
+            got = [r.body for r in conn.requests if r.target == "/x"]
+            it = iter(sent)
+            if not all(any(b == s for s in it) for b in got):
+                R.fail("C05.outbound-frames", f"bodies received {[len(b) for b in got]} are not the issued ones in order {[len(b) for b in sent]}", backpressure=1)
+                return
+            for body, r in zip(sent, res):
+                if not isinstance(r, BaseException) and body not in got:
+                    R.fail("C05.outbound-frames", f"a request of {len(body)} bytes was answered but never reached the accessory", backpressure=1)
+                    return
+            await p.close()
+        finally:
+            w.restore()
+    vtime.run(main)
+
+
+def run_outbound_pipelined(case, R):
+    """Several requests outstanding on one session (HomeKitConnection's concurrency_limit > 1; the protocol dispatches replies in order) while
+    the accessory does not read: the harness plays asyncio's flow control (pause_writing() once more than 64 KiB are unsent, resume_writing()
+    when the accessory reads again).  The byte stream that reaches the reference accessory must authenticate frame by frame and decode to the
+    payloads of the requests that were written, in the order they were issued; unless the session was ended."""
+    pre, mid, post = case["pre"], case["mid"], case["post"]
+    R.nt(sum(pre) > 64 * 1024)
+    R.cls("out:pipelined" + (":paused" if sum(pre) > 64 * 1024 else ""))
+
+    async def go():
+        log = []
+        p = SecureHomeKitProtocol(_Conn(log), A2C, C2A)
+        sink = _Sink()
+        p.connection_made(sink)
+        written, tasks, outcomes = [], [], []
+        state = {"unsent": 0, "paused": False}
+
+        async def issue(n, stalled):
+            payload = bytes((i * 13 + n + len(tasks)) & 0xFF for i in range(n))
+            before = len(sink.calls)
+            tasks.append(asyncio.ensure_future(p.send_bytes(payload)))
+            await asyncio.sleep(0)
+            calls = sink.calls[before:]
+            if calls:
+                written.append(payload)
+            if stalled:
+                state["unsent"] += sum(len(x) for _, v in calls for x in v)
+                if state["unsent"] > 64 * 1024 and not state["paused"]:
+                    state["paused"] = True
+                    p.pause_writing()
+        for n in pre:
+            await issue(n, True)
+        for n in mid:
+            await issue(n, True)
+        if state["paused"]:
+            p.resume_writing()
+        for n in post:
+            await issue(n, False)
+        if sink.closing:
+            R.cls("session-ended")
+        else:
+            wire = b"".join(x for _, v in sink.calls for x in v)
+            try:
+                frames, _, rest = refhap.frames_dec(C2A, 0, wire)
+            except refhap.FrameError as e:
+                R.fail("C05.outbound-frames", f"pipelined requests pre {pre} mid {mid} post {post} (paused: {state['paused']}): reference accessory: {e}", pipelined=1)
+                frames = None
+            if frames is not None and (rest or b"".join(frames) != b"".join(written)):
+                R.fail("C05.outbound-frames", f"pipelined requests pre {pre} mid {mid} post {post}: plaintext differs from the written requests in order", pipelined=1)
+        a2c = 0
+        for _ in written:
+            resp, a2c = refhap.frames_enc(A2C, a2c, b"HTTP/1.1 204 No Content\r\n\r\n")
+            if not sink.closing:
+                p.data_received(resp)
+        for t in tasks:
+            if not t.done():
+                await asyncio.sleep(0)
+            if not t.done():
+                t.cancel()
+        outcomes.extend(await asyncio.gather(*tasks, return_exceptions=True))
+    vtime.run_shared(go())
+
+
+def enum_backpressure(tier):
+    for pre in ([30000, 30000, 6000], [70000], [20000] * 4, [1000], [65000, 1000]):
+        for mid in ([10], [10, 2000], []):
+            for post in ([10], [10, 1500], [3000, 10, 10]):
+                yield {"pre": pre, "mid": mid, "post": post}
+
+
+@st.composite
+def backpressure_cases(draw):
+    big = st.one_of(st.sampled_from([16384, 32768, 65536, 70000]), st.integers(1, 80000))
+    small = st.integers(1, 3000)
+    return {"k": draw(st.integers(0, 100)), "pre": draw(st.lists(big, min_size=1, max_size=4)), "mid": draw(st.lists(small, max_size=3)),
+            "post": draw(st.lists(small, min_size=1, max_size=3))}
+
+
 @st.composite
 def outbound_world_cases(draw):
     return {"k": draw(st.integers(0, 100)), "bodies": draw(st.lists(st.one_of(st.sampled_from([1, 900, 930, 950, 1024, 2000, 4000]), st.integers(1, 6000)), min_size=1, max_size=4)),
@@ -400,6 +540,12 @@ SPEC = Property(
         Layer("outbound-length-grid", run_outbound_direct, enumerate=enum_outbound, exhaustive=True, space="22 boundary lengths; 20 three-request sessions", min_nontrivial=20),
         Layer("outbound-gen", run_outbound_direct, strategy=outbound_cases, n={"quick": 600, "thorough": 15000}),
         Layer("outbound-api", run_outbound_world, strategy=outbound_world_cases, n={"quick": 300, "thorough": 6000}),
+        Layer("outbound-backpressure-grid", run_outbound_backpressure, enumerate=enum_backpressure, exhaustive=True,
+              space="5 backlogs (below / above the 64 KiB high-water mark) x 3 request lists while paused x 3 after the accessory reads again"),
+        Layer("outbound-pipelined-grid", run_outbound_pipelined, enumerate=enum_backpressure, exhaustive=True,
+              space="the same grid with several requests outstanding on the protocol (pause_writing / resume_writing played by the harness)"),
+        Layer("outbound-pipelined", run_outbound_pipelined, strategy=backpressure_cases, n={"quick": 300, "thorough": 6000}),
+        Layer("outbound-backpressure", run_outbound_backpressure, strategy=backpressure_cases, n={"quick": 150, "thorough": 3000}),
     ],
     assumptions=["reference AEAD framing in vlib/refhap.py (LE16 length as AAD, nonce = 4 zero bytes + LE64 counter)",
                  "the in-memory transport turns an exception from data_received into connection_lost(exc), as asyncio's socket transport does",
